@@ -724,8 +724,33 @@ func avlCasePre[T comparable](c *core.Ctx, tname string, univ []T, cmp func(a, b
 				return
 			}
 		}
+		// a listing, then exactly 256 and exactly 65536 successful changes with no listing in
+		// between, then a listing again (a cached listing validated by a small change counter)
+		for _, m := range []int{256, 65536} {
+			before := l.t.SliceInOrder()
+			v := univ[0]
+			for i := 0; i < m-1; i++ { // m-1 changes: Add, Remove, Add, ... ends with the value added when m-1 is odd
+				if i%2 == 0 {
+					l.t.Add(v)
+				} else {
+					l.t.Remove(v)
+				}
+			}
+			l.t.Add(univ[len(univ)-1]) // change number m
+			want := append([]T{}, before...)
+			if (m-1)%2 == 1 {
+				want = insertSorted(want, v)
+			}
+			want = insertSorted(want, univ[len(univ)-1])
+			if got := l.t.SliceInOrder(); !eqSlice(got, want) || l.t.Len() != len(want) {
+				hist = append(hist, fmt.Sprintf("SliceInOrder, %d successful changes, SliceInOrder", m))
+				fail("SliceInOrder:stale-after-many-changes", fmt.Sprintf("SliceInOrder after exactly %d successful Add/Remove calls since the previous listing gives %v (Len %d), expected %v", m, got, l.t.Len(), want))
+				return
+			}
+			l.t.Clear()
+		}
 		l.model = nil
-		hist = append(hist, "storm: 300 x (Add a few, Clear)")
+		hist = append(hist, "storm: 300 x (Add a few, Clear); listings 256 and 65536 changes apart")
 		c.Count("clear_storms", 1)
 		if !checkAll("Clear") {
 			return
